@@ -36,7 +36,7 @@ CHECKS = {
     "C05": dict(
         category="exploration",
         technique="deterministic simulation of sessions with first-class continuations: seeded histories in which later top-level forms re-enter stored continuations, under collection schedules and slicing, checked against a reference CEK machine with first-class continuations",
-        text="Sessions composed of 33 continuation templates (escape, re-entry from later forms, operand position with effects on both sides, tail capture, nested, inside map/for-each, mutation since capture, re-entry from loops, captures above 256 stack slots, re-entry from the capturing activation, two captures in one activation, locals assigned since capture, aggregates handed to k ...) with the continuation stored in a global, vector, pair, closure or list and re-entered 0-3 times; the value, failure and output of every form must equal the reference machine's. Half of the runs add forced collections (continuations are kept alive by the marker only), a third are sliced. Sampling.",
+        text="Sessions composed of 35 continuation templates (escape, re-entry from later forms, operand position with effects on both sides, tail capture, nested, inside map/for-each, mutation since capture, re-entry from loops, captures above 256 stack slots, re-entry from the capturing activation, two captures in one activation, locals assigned since capture, aggregates handed to k ...) with the continuation stored in a global, vector, pair, closure or list and re-entered 0-3 times; the value, failure and output of every form must equal the reference machine's. Half of the runs add forced collections (continuations are kept alive by the marker only), a third are sliced. Sampling.",
         note="Trusted: the reference machine (persistent frame list as continuation).",
         design="§5 C05",
     ),
@@ -64,7 +64,7 @@ CHECKS = {
     "C12": dict(
         category="exploration",
         technique="deterministic simulation: heap audit 'no unreachable cell stays allocated' after every scheduled collection, plus resource monitors over garbage loops (n vs 10n) under the production collection policy with randomised knobs",
-        text="After every collection of the C03 schedule families the auditor checks that each allocated cell is reachable from the roots; garbage loops of 16 allocation kinds (incl. code redefining variables, procedures and keywords) x 4 live-set sizes x 9 loop drivers (named let, continuation back edge, mutual tail calls, apply, one-armed conditional, variadic, delay-force chain, closure handed from iteration to iteration, ...), split into forms and slices with a randomised initial heap chunk, must hold no more heap capacity, stack capacity, cells in use, interned symbols or global slots after 10n iterations than after n. Sampling of programs and schedules.",
+        text="After every collection of the C03 schedule families the auditor checks that each allocated cell is reachable from the roots; garbage loops of 16 allocation kinds (incl. code redefining variables, procedures and keywords) x 4 live-set sizes x 10 loop drivers (named let, continuation back edge, mutual tail calls, apply, one-armed conditional, variadic, delay-force chain, closure handed from iteration to iteration, eval as back edge, ...), split into forms and slices with a randomised initial heap chunk, must hold no more heap capacity, stack capacity, cells in use, interned symbols or global slots after 10n iterations than after n. Sampling of programs and schedules.",
         note="Trusted: auditor traversal (conservative about jump offsets for I2); 'stops growing' is decided as not-larger at 10n than at n with n past warm-up (quick: 3e3/1e4, thorough: 1e4/1e5).",
         design="§5 C12",
     ),
